@@ -140,7 +140,9 @@ type h3WaitRes struct {
 	Pan bool
 }
 
-func (r h3WaitRes) String() string { return fmt.Sprintf("agg{is=%v nil=%v pan=%v}", r.Is, r.Nil, r.Pan) }
+func (r h3WaitRes) String() string {
+	return fmt.Sprintf("agg{is=%v nil=%v pan=%v}", r.Is, r.Nil, r.Pan)
+}
 
 type h3World struct {
 	slots  map[string]context.Context
@@ -519,8 +521,16 @@ func (w *h3World) compare(n, k int, st h3Step, res string) (verdict map[string]a
 func h3Replay(n int, b h3Beh) map[string]any {
 	w := h3NewWorld(b.Cfg)
 	setHooks(nil)
-	finish := func(m map[string]any) map[string]any {
+	// tear-down: end the root and - should an orchestrator not live under it - close every
+	// orchestrator service, so that nothing of this behaviour survives into the next one
+	teardown := func() {
 		w.cancel()
+		for _, svc := range w.osvc {
+			svc.Close()
+		}
+	}
+	finish := func(m map[string]any) map[string]any {
+		teardown()
 		rt.Quiesce()
 		return m
 	}
@@ -589,7 +599,7 @@ func h3Replay(n int, b h3Beh) map[string]any {
 				"note": fmt.Sprintf("step %d (%s): outcome %s %v is allowed but is not the model's branch", k, st.Op, res, w.cancelled())})
 		}
 	}
-	w.cancel()
+	teardown()
 	if _, err := rt.Quiesce(); err != nil {
 		return inconclusive(n, "no quiescence at end")
 	}
